@@ -27,7 +27,8 @@ _CAP = int(OT.NEFC | OT.NJMAX_NNZ | OT.BROADPHASE | OT.NARROWPHASE | OT.CCD | OT
 def strategy(tier):
   return st.fixed_dictionaries(
     dict(
-      cfg=gen.rich_cfg(),
+      # delayed actuators (zoh/linear/cubic reads of a per-world control history ring buffer): the history is per-world state that a batch must not mix
+      cfg=gen.rich_cfg(delays=st.booleans()),
       opt=gen.option_strategy(),
       nworld=st.sampled_from([2, 3, 3, 4, 5]),
       perm_seed=st.integers(0, 1000),
@@ -122,7 +123,9 @@ def check(case, rec):
   for w in range(n):
     if mjm.neq:
       states[w]["eq_active"] = g.uniform(size=mjm.neq) < 0.6  # equality activation is per-world state
-  ctrls = [H.f32(g.normal(size=(n, mjm.nu))) for _ in range(case["nstep"])]
+  # with a control history the worlds' buffers differ only once several per-world samples have been written: run 4 more steps
+  nstep = case["nstep"] + (4 if mjm.nhistory else 0)
+  ctrls = [H.f32(g.normal(size=(n, mjm.nu))) for _ in range(nstep)]
   perm = [int(x) for x in np.random.default_rng(case["perm_seed"]).permutation(n)]
   if perm == list(range(n)):
     perm = perm[1:] + perm[:1]
@@ -167,7 +170,7 @@ def check(case, rec):
   reassoc = bool(m.is_sparse) and cfg["option"]["solver"] == "Newton"
   ncon = set()
   any_efc = False
-  for s in range(case["nstep"]):
+  for s in range(nstep):
     if mjm.nu:
       D.ctrl.assign(ctrls[s].astype(np.float32))
       P.ctrl.assign(ctrls[s][perm].astype(np.float32))
@@ -197,7 +200,7 @@ def check(case, rec):
       b = snapshot(m, D, w)
       compare(rec, b, solo, "batch-vs-solo", reassoc=reassoc, world=w, step=s)
       compare(rec, snapshot(m, P, perm.index(w)), solo, "perm-vs-solo", reassoc=reassoc, world=w, step=s, perm=perm)
-      if s == case["nstep"] - 1:
+      if s == nstep - 1:
         ncon.add(len(b["cdist"]))
         any_efc |= b["nefc"] > 0
     # resynchronise: every copy restarts the next step from the batch's state (round-off cannot be amplified by contact dynamics)
@@ -205,7 +208,7 @@ def check(case, rec):
     H.set_state(m, P, mjm, st[perm])
     for w in range(n):
       H.set_state(m, S[w], mjm, st[w : w + 1])
-  rec.cls(f"sleep:{sleeping}")
+  rec.cls(f"sleep:{sleeping}", f"ctrl_history:{bool(mjm.nhistory)}")
   rec.cls(f"integrator:{case['opt']['integrator']}", f"solver:{cfg['option']['solver']}", f"sparse:{bool(m.is_sparse)}", f"distinct_ncon:{len(ncon) > 1}")
   if len(ncon) > 1 and any_efc:
     rec.nt()
